@@ -235,7 +235,7 @@ class Driver:
             self.safe_redo -= 1
             self.safe_undo += 1
         elif k == "external":
-            self.external(act[1])
+            self.external(act[1], act[2] if len(act) > 2 else "")
         elif k == "q":
             self.query(act[1:])
         else:
@@ -246,7 +246,7 @@ class Driver:
         self.fake += 7
         os.utime(real, (self.fake, self.fake))
 
-    def external(self, xs):
+    def external(self, xs, folder=""):
         root = self.root
         model_xs = []
         for x in xs:
@@ -267,7 +267,7 @@ class Driver:
                 with open(real, "wb") as f:
                     f.write(data)
                 os.utime(real, ns=(st.st_atime_ns, st.st_mtime_ns))
-                model_xs.append(("write", W.path_of(x[1]), self.texts.content(x[2])))
+                model_xs.append(("write", W.path_of(x[1]), self.texts.content(x[2]), True))
             elif k == "xcreate_file":
                 with open(real, "xb"):
                     pass
@@ -302,8 +302,11 @@ class Driver:
             else:
                 raise ValueError(k)
         self.safe_undo = self.safe_redo = 0     # undoing across changes made behind rope's back is undefined
-        self.project.validate()
-        self.case(("ext", model_xs))
+        if folder:
+            self.project.validate(self.project.get_folder(folder))
+        else:
+            self.project.validate()
+        self.case(("ext", model_xs, W.path_of(folder)))
 
     def query(self, q):
         from rope.base import exceptions
@@ -585,9 +588,16 @@ def gen_external(rng, gen_text, tree, root):
     xs = []
     sizes = {W.str_of(k): os.path.getsize(os.path.join(root, *W.str_of(k).split("/")))
              for k, n in tree.items() if n is not None}
+    orig = dict(sizes)      # the sizes rope may have stored: a rewrite that keeps the mtime must not return to them
+    # sometimes everything happens below one folder and only that folder is validated
+    all_folders = _paths(t)[1][1:]
+    scope = rng.choice(all_folders) if all_folders and rng.random() < 0.3 else ""
     for _ in range(rng.choice([1, 1, 2, 3])):
         files, folders = _paths(t)
         tset = set(files) | set(folders)
+        if scope:
+            files = [x for x in files if x.startswith(scope + "/")]
+            folders = [x for x in folders if x == scope or x.startswith(scope + "/")]
         r = rng.random()
         if r < 0.35 and files:
             p = rng.choice(files)
@@ -596,7 +606,7 @@ def gen_external(rng, gen_text, tree, root):
             shape = rng.random()
             if shape < 0.35 and cur is not None:
                 # same modification time, different size
-                if len(text.encode("utf-8")) == cur:
+                while len(text.encode("utf-8")) in (cur, orig.get(p)):
                     text += "# pad\n"
                 xs.append(["xwrite_keep_mtime", p, text])
             elif shape < 0.55 and cur is not None and cur > 0:
@@ -658,7 +668,7 @@ def gen_external(rng, gen_text, tree, root):
             sp, dp = W.path_of(src), W.path_of(dst)
             for k in [k for k in t if k[:len(sp)] == sp]:
                 t[dp + k[len(sp):]] = t.pop(k)
-    return ["external", xs] if xs else None
+    return ["external", xs, scope] if xs else None
 
 
 def gen_selection(rng, tree, full=False):
@@ -835,7 +845,7 @@ def case_term(c):
     if kind[0] == "rope":
         k = "(KStep (ORope %s) None)" % W.g_xop(kind[1])
     elif kind[0] == "ext":
-        k = "(KStep (OExternal %s) None)" % g_list([W.g_xop(x) for x in kind[1]])
+        k = "(KStep (OExternal %s %s) None)" % (W.g_path(kind[2]), g_list([W.g_xop(x) for x in kind[1]]))
     elif kind[0] == "q":
         k = "(KStep (OQuery %s) (Some %s))" % (W.g_query(kind[1]), W.g_answer(kind[2]))
     else:
@@ -951,7 +961,10 @@ def run(ctx):
         fl = flags[gi] if gi < len(flags) else 0
         kind = c[1][0]
         ctx.count("case:" + kind)
-        coh_pre, coh_post, unaff = bool(fl & 2), bool(fl & 8), bool(fl & 16)
+        coh_pre, coh_post, unaff = bool(fl & 2), bool(fl & 8), bool(fl & 16) and bool(fl & 128)
+        if kind == "ext":
+            ctx.count("ext batch: " + ("validate(sub-folder)" if c[1][2] else "validate()") +
+                      (", ext_ok (confined and visible in the indicators)" if fl & 128 else ", NOT ext_ok"))
         if fl & 64:
             ctx.count("case:rope raises (model branch move_raises)")
         if coh_pre:
